@@ -76,10 +76,13 @@ OutLocId(lay) ==
     [] lay.out = "rel"      -> "cwd:out/v3.yml"
     [] lay.out = "samebase" -> "cwd:<input base name>"
     [] lay.out = "abs"      -> "abs:abs-out.yml"
+    [] lay.out = "input"    -> "input"
 
 \* changed: the location ids of every file created, modified or removed by the command ("input" = the v2
 \* file).  Exactly the requested output, nothing else -- in particular never the input.
-FilesOK(lay, changed) == changed = {OutLocId(lay)}
+\* When --outfile names the v2 file itself the two promises collide; the input must survive (refusing, or
+\* writing nothing, is fine), nothing else is demanded then.
+FilesOK(lay, changed) == IF lay.out = "input" THEN "input" \notin changed ELSE changed = {OutLocId(lay)}
 
 \* what mockery's own loader reports for the file (after merging the hierarchy): a value set at a level is
 \* the value in effect at that level.  (`_anchors` maps are merged key-wise down the hierarchy by the loader
